@@ -76,7 +76,7 @@ def _shift(node, dl, db, keep_param_names=False):
     return out
 
 
-def is_pure_accessor(path, j, raw):
+def is_pure_accessor(path, j, raw, _depth=0):
     """small `&self` function without stores through references and without calls other than to std value helpers or other pure accessors:
     `is_connected()`, `is_disconnected()`, `disconnect_reason()`. They are inlined into their callers (and stay subjects of their own), so
     a status test reads the same whether it is written `self.is_disconnected()`, `matches!(self.connection_status, ..)` or `if let .. = ..`."""
@@ -90,7 +90,11 @@ def is_pure_accessor(path, j, raw):
         t = b["term"]
         if t["k"] == "call":
             nm = t.get("resolved") or t.get("callee") or ""
-            if not (nm.endswith("::clone") or "PartialEq" in nm or "::eq" in nm or "::ne" in nm or "Option" in nm and nm.rsplit("::", 1)[-1] in ("is_some", "is_none")): return False
+            if not (nm.endswith("::clone") or "PartialEq" in nm or "::eq" in nm or "::ne" in nm or "Option" in nm and nm.rsplit("::", 1)[-1] in ("is_some", "is_none")):
+                # a call to another pure accessor of the same kind (`is_disconnected()` written as `self.disconnect_reason().is_some()`)
+                callee = raw.get(_strip_generics(nm))
+                if _depth < 2 and callee is not None and callee is not j and is_pure_accessor(_strip_generics(nm), callee, raw, _depth + 1): continue
+                return False
         if t["k"] == "assert" and not str(t.get("kind", "")).startswith("overflow"): return False
     return True
 
